@@ -258,7 +258,7 @@ var (
 )
 
 func vFilterChainGenPfxs(r *vRand, v6 bool, bad bool) ([]int64, []string) {
-	n := r.PickInt(0, 0, 1, 1, 1, 2)
+	n := r.PickInt(0, 0, 1, 1, 1, 2, 2, 3, 4)
 	out := []int64{int64(n)}
 	var keys []string
 	for i := 0; i < n; i++ {
@@ -348,6 +348,82 @@ func vFilterChainGenLoad(r *vRand, v6 bool) []int64 {
 	return out
 }
 
+// vFilterChainGenTie: a listener whose last chain ties with its first one in exactly one
+// slot: the two share destination prefix, source type, one source prefix and one port, and
+// the shared element sits at a random position of a 2-4 element list of the last chain
+// (validation must reject it wherever the collision is).  Sometimes the shared prefix is
+// spelled unmasked.
+func vFilterChainGenTie(r *vRand, v6 bool) []int64 {
+	pool := vFilterChainP4[:7]
+	if v6 {
+		pool = vFilterChainP6[:5]
+	}
+	perm := make([]int, len(pool))
+	for i := range perm {
+		perm[i] = i
+	}
+	for i := range perm {
+		j := i + r.Intn(len(perm)-i)
+		perm[i], perm[j] = perm[j], perm[i]
+	}
+	pw := func(p vFilterChainPfx) []int64 { return vCat(p.a, []int64{p.len}) }
+	// list of k distinct pool prefixes with pool[perm[0]] at position pos
+	list := func(k, pos int) []int64 {
+		out := []int64{int64(k)}
+		next := 1
+		for i := 0; i < k; i++ {
+			if i == pos {
+				out = vCat(out, pw(pool[perm[0]]))
+			} else {
+				out = vCat(out, pw(pool[perm[next]]))
+				next++
+			}
+		}
+		return out
+	}
+	st := int64(r.Intn(3))
+	dim := r.Intn(3) // which list of the last chain carries the collision in a non-trivial position
+	k := 2 + r.Intn(3)
+	pos := r.Intn(k)
+	one := vCat([]int64{1}, pw(pool[perm[0]]))
+	none := []int64{0}
+	var first, last []int64
+	switch dim {
+	case 0: // source prefixes
+		d := none
+		if r.Bool() {
+			d = vCat([]int64{1}, pw(pool[perm[len(perm)-1]]))
+		}
+		first = vCat([]int64{0}, d, []int64{st}, one, []int64{0})
+		last = vCat([]int64{0}, d, []int64{st}, list(k, pos), []int64{0})
+	case 1: // destination prefixes
+		first = vCat([]int64{0}, one, []int64{st}, none, []int64{0})
+		last = vCat([]int64{0}, list(k, pos), []int64{st}, none, []int64{0})
+	default: // source ports
+		ports := []int64{80, 1234, 65535, 70000}
+		first = vCat([]int64{0}, none, []int64{st}, none, []int64{1, ports[0]})
+		pl := []int64{int64(k)}
+		nx := 1
+		for i := 0; i < k; i++ {
+			if i == pos {
+				pl = append(pl, ports[0])
+			} else {
+				pl = append(pl, ports[nx])
+				nx++
+			}
+		}
+		last = vCat([]int64{0}, none, []int64{st}, none, pl)
+	}
+	out := []int64{1, vB(r.Chance(60)), 2}
+	if r.Chance(40) {
+		// an unrelated chain in between (different source type)
+		out[2] = 3
+		mid := vCat([]int64{0}, none, []int64{(st + 1) % 3}, none, []int64{1, 4321})
+		return vCat(out, first, mid, last)
+	}
+	return vCat(out, first, last)
+}
+
 func vFilterChainGenAddr(r *vRand, v6 bool) []int64 {
 	if v6 {
 		return vFilterChainA6[r.Intn(len(vFilterChainA6))]
@@ -397,6 +473,19 @@ func vFilterChainFixed() [][]int64 {
 		vCat([]int64{1, 1, 2}, ch(one(4, 0x0A000000, 8), 0, none), ch(one(6, 0, 0, 0xFFFF, 0x0A000000, 8), 0, none)),
 		vCat([]int64{1, 1, 2}, ch(none, 1, none, 80, 81), ch(none, 1, none, 81)),
 		vCat([]int64{1, 1, 2}, ch(none, 1, none, 0), ch(none, 1, none)),
+		// the colliding element at each position of a later chain's 3-element list
+		vCat([]int64{1, 1, 2}, ch(none, 0, one(4, 0x0A000000, 8)), ch(none, 0, []int64{3, 4, 0x0A000000, 8, 4, 0xC0A80000, 16, 4, 0x7F000000, 8})),
+		look(1, 0x0A010101, 0x0A010203, 1234),
+		vCat([]int64{1, 1, 2}, ch(none, 0, one(4, 0x0A000000, 8)), ch(none, 0, []int64{3, 4, 0xC0A80000, 16, 4, 0x0A010203, 8, 4, 0x7F000000, 8})),
+		look(1, 0x0A010101, 0x0A010203, 1234),
+		vCat([]int64{1, 1, 2}, ch(none, 0, one(4, 0x0A000000, 8)), ch(none, 0, []int64{3, 4, 0xC0A80000, 16, 4, 0x7F000000, 8, 4, 0x0A000000, 8})),
+		vCat([]int64{1, 1, 2}, ch(one(4, 0x0A000000, 8), 0, none), ch([]int64{3, 4, 0x0A000000, 8, 4, 0xC0A80000, 16, 4, 0x7F000000, 8}, 0, none)),
+		look(1, 0x0A010101, 0x08080808, 1234),
+		vCat([]int64{1, 1, 2}, ch(one(4, 0x0A000000, 8), 0, none), ch([]int64{3, 4, 0xC0A80000, 16, 4, 0x0A000000, 8, 4, 0x7F000000, 8}, 0, none)),
+		vCat([]int64{1, 1, 2}, ch(none, 2, none, 80), ch(none, 2, none, 80, 81, 82)),
+		look(1, 0x0A010101, 0x08080808, 80),
+		vCat([]int64{1, 1, 2}, ch(none, 2, none, 80), ch(none, 2, none, 81, 80, 82)),
+		vCat([]int64{1, 1, 2}, ch(none, 2, none, 80), ch(none, 2, none, 81, 82, 80)),
 		vCat([]int64{1, 0, 1}, vCat([]int64{1}, none, []int64{0}, none, []int64{0})),
 		vCat([]int64{1, 0, 0}),
 		vCat([]int64{1, 1, 0}),
@@ -411,7 +500,11 @@ func vFilterChainGen(r *vRand, tier string, idx int) ([]int64, [][]int64) {
 	var ops [][]int64
 	for l := 0; l < 6; l++ {
 		v6 := r.Chance(25)
-		ops = append(ops, vFilterChainGenLoad(r, v6))
+		if l == 2 || (l == 5 && r.Bool()) {
+			ops = append(ops, vFilterChainGenTie(r, v6))
+		} else {
+			ops = append(ops, vFilterChainGenLoad(r, v6))
+		}
 		for i := 0; i < 10; i++ {
 			ops = append(ops, vFilterChainGenLook(r, v6))
 		}
